@@ -89,10 +89,24 @@ def op_json(op):
 
 # --------------------------------------------------------------------------------------
 # observation of the real objects (public getters only)
+class Snap:
+    """one pass over the public getters of a vector: view (bit patterns), the arrays themselves, to_dict, invariant"""
+    __slots__ = ("view", "arrs", "floats", "dstr", "inv")
+
+    def __init__(self, v):
+        names = [str(x) for x in v.names]
+        self.arrs = (v.values, v.mins, v.maxs, v.defaults)
+        self.floats = tuple(a.tolist() for a in self.arrs)
+        an = v.accept_nan
+        self.view = (names,) + tuple(fl(x) for x in self.floats) + (
+            b01(v.hitbounds), b01(v.check_bounds), b01(v.check_hitbounds), b01(an))
+        self.dstr = dict_str(v)
+        self.inv = invariant(names, self.floats, an)
+
+
 def vec_view(v):
     """(names, values, mins, maxs, defaults, hit, cb, ch, an) with floats as bit patterns"""
-    return ([str(x) for x in v.names], fl(v.values), fl(v.mins), fl(v.maxs), fl(v.defaults),
-            b01(v.hitbounds), b01(v.check_bounds), b01(v.check_hitbounds), b01(v.accept_nan))
+    return Snap(v).view
 
 
 def view_str(vw):
@@ -107,10 +121,10 @@ def dict_str(v):
                      b01(d["accept_nan"]), "[" + items + "]"])
 
 
-def invariant(v):
-    """the property's invariant, evaluated on the Python object"""
-    n = len(v.names)
-    vals, lo, hi, dfl = (list(map(float, a)) for a in (v.values, v.mins, v.maxs, v.defaults))
+def invariant(names, floats, accept_nan):
+    """the property's invariant, evaluated on what the getters of the Python object returned"""
+    n = len(names)
+    vals, lo, hi, dfl = floats
     if not (len(vals) == len(lo) == len(hi) == len(dfl) == n):
         return "lengths"
     for i in range(n):
@@ -120,15 +134,15 @@ def invariant(v):
         for i in range(n):
             x = arr[i]
             if x != x:
-                if not v.accept_nan:
+                if not accept_nan:
                     return nm + "_nan_without_permission"
             elif not (lo[i] <= x <= hi[i]):
                 return nm + "_outside_bounds"
     return None
 
 
-def alias_classes(np, vecs):
-    arrs = [getattr(v, f) for v in vecs for f in FIELDS]
+def alias_classes(np, snaps):
+    arrs = [a for sn in snaps for a in sn.arrs]
     cls = []
     for j, a in enumerate(arrs):
         k = j
@@ -140,14 +154,20 @@ def alias_classes(np, vecs):
     return cls
 
 
-def observe(np, vecs, out):
-    parts = [out]
-    for v in vecs:
-        parts.append(view_str(vec_view(v)))
-        parts.append(dict_str(v))
-        parts.append("1" if invariant(v) is None else "0")
-    parts.append("A" + C.ilist(alias_classes(np, vecs)))
-    return " ".join(parts)
+class WorldSnap:
+    def __init__(self, np, vecs):
+        self.snaps = [Snap(v) for v in vecs]
+        self.alias = alias_classes(np, self.snaps)
+        self.views = [sn.view for sn in self.snaps]
+
+    def observe(self, out):
+        parts = [out]
+        for sn in self.snaps:
+            parts.append(view_str(sn.view))
+            parts.append(sn.dstr)
+            parts.append("1" if sn.inv is None else "0")
+        parts.append("A" + C.ilist(self.alias))
+        return " ".join(parts)
 
 
 def strip_kind(obs):
@@ -215,7 +235,7 @@ class VectorRun:
                 arr[:] = 12345.678
         names[:] = ["q"] * len(names)
         self.vecs = [v]
-        self.born = [self.frozen(vec_view(v))]
+        self.born = [self.frozen(Snap(v).view)]
         return "ok"
 
     def apply(self, op):
@@ -268,26 +288,28 @@ class VectorRun:
     def run(self):
         np = self.np
         out = self.construct()
+        want = spec_valid(self.spec)
         if out == "rej":
             self.obs = ["rej"]
+            if want:
+                self.find("constructor/rejects_valid", "the constructor raised ValueError on valid arguments", -1)
             return
+        if not want:
+            self.find("constructor/accepts_invalid", "the constructor accepted arguments it must reject", -1)
         vecs = self.vecs
-        self.obs.append(observe(np, vecs, "ok"))
-        inv = invariant(vecs[0])
-        if inv is not None:
-            self.find("constructor/" + inv, "a freshly constructed vector violates the invariant", -1)
-        v0 = vec_view(vecs[0])
+        ws = WorldSnap(np, vecs)
+        self.obs.append(ws.observe("ok"))
+        if ws.snaps[0].inv is not None:
+            self.find("constructor/" + ws.snaps[0].inv, "a freshly constructed vector violates the invariant", -1)
+        v0 = ws.views[0]
         if v0[1] != v0[4] or v0[5] != "0":
             self.find("constructor/initial_state", "fresh vector: values != defaults or hit flag set", -1)
         for step, op in enumerate(self.ops):
             kind, k = op[0], op[1]
-            before = [vec_view(v) for v in vecs]
-            inv_before = [invariant(v) for v in vecs]
-            alias_before = alias_classes(np, vecs)
+            wb = ws
+            before = wb.views
             nbefore = len(vecs)
-            lo = [float(x) for x in vecs[k].mins]
-            hi = [float(x) for x in vecs[k].maxs]
-            dfl = [float(x) for x in vecs[k].defaults]
+            _, lo, hi, dfl = wb.snaps[k].floats
             self.assigned = None
             try:
                 out, tok = self.apply(op)
@@ -297,27 +319,27 @@ class VectorRun:
                 self.used_ops.append("rs:0")
                 return
             self.used_ops.append(tok)
-            after = [vec_view(v) for v in vecs]
-            self.obs.append(observe(np, vecs, out))
+            ws = WorldSnap(np, vecs)
+            after = ws.views
+            self.obs.append(ws.observe(out))
             if after[:nbefore] != before or len(vecs) != nbefore:
                 self.changed = True
             # ---- oracle
-            for j, v in enumerate(vecs):
-                inv = invariant(v)
-                if inv is not None and (j >= len(inv_before) or inv_before[j] is None):
-                    self.find(f"{kind}/invariant/{inv}", f"vector {j} violates the invariant after the operation", step)
-                if self.frozen(after[j]) != self.born[j] if j < len(self.born) else False:
+            for j, sn in enumerate(ws.snaps):
+                if sn.inv is not None and (j >= nbefore or wb.snaps[j].inv is None):
+                    self.find(f"{kind}/invariant/{sn.inv}", f"vector {j} violates the invariant after the operation", step)
+                if j < len(self.born) and self.frozen(after[j]) != self.born[j]:
                     self.find(f"{kind}/frozen_changed", f"names/bounds/defaults/flags of vector {j} changed", step)
-                names = after[j][0]
-                vals = [float(x) for x in v.values]
-                for i, nm in enumerate(names):
-                    if not (same_float(float(v[nm]), vals[i]) and same_float(float(getattr(v, nm)), vals[i])):
-                        self.find("read/key_or_attr_differs", "vect[name] / vect.name differ from values[i]", step)
+            v = vecs[k]
+            vals = ws.snaps[k].floats[0]
+            for i, nm in enumerate(after[k][0]):
+                if i < len(vals) and not (same_float(float(v[nm]), vals[i]) and same_float(float(getattr(v, nm)), vals[i])):
+                    self.find("read/key_or_attr_differs", "vect[name] / vect.name differ from values[i]", step)
             for j in range(nbefore):
                 if j != k and after[j] != before[j]:
                     self.find(f"{kind}/changes_other_vector", f"operation on vector {k} changed vector {j}", step)
             if out == "rej":
-                if after != before or alias_classes(np, vecs) != alias_before:
+                if after != before or ws.alias != wb.alias:
                     self.find(f"{kind}/rejected_changes_state", "a rejected operation changed the observable state", step)
                 if kind in ("cl", "dr"):
                     self.find(f"{kind}/raises", "clone / dictionary round-trip of a valid vector raised ValueError", step)
@@ -332,18 +354,19 @@ class VectorRun:
                                           "check_hitbounds", "accept_nan")):
                     if new[idx] != before[k][idx]:
                         self.find(f"{kind}/state_differs:{nm}", f"the copy's {nm} differ from the source's", step)
+                if ws.snaps[-1].dstr != wb.snaps[k].dstr:
+                    self.find(f"{kind}/state_differs:to_dict", "to_dict() of the copy differs from the source's", step)
                 if after[k] != before[k]:
                     self.find(f"{kind}/changes_source", "the source changed", step)
-                al = alias_classes(np, vecs)
                 base = 4 * (len(vecs) - 1)
-                if any(al[base + i] != base + i for i in range(4)):
+                if any(ws.alias[base + i] != base + i for i in range(4)):
                     self.find(f"{kind}/shares_memory", "the copy shares memory with another array", step)
                 continue
             # assignments
             cur = after[k]
             ch = before[k][7] == "1"
             names = before[k][0]
-            vals_after = [float(x) for x in vecs[k].values]
+            vals_after = ws.snaps[k].floats[0]
             if kind in ("sa", "sk"):
                 if op[2] not in names:
                     if after != before:
@@ -351,8 +374,7 @@ class VectorRun:
                     continue
                 i = names.index(op[2])
                 assigned = {i: float(op[3])}
-                prev = C.parse_flist(before[k][1])
-                expect = list(prev)
+                expect = list(wb.snaps[k].floats[0])
                 expect[i] = expected_clip(float(op[3]), lo[i], hi[i])
             else:
                 xs = self.assigned if kind == "sv" else dfl
@@ -459,6 +481,30 @@ def effective_bounds(sp):
     lo = [-INF] * n if sp["mins"] is None else list(sp["mins"])
     hi = [INF] * n if sp["maxs"] is None else [max(a, b) for a, b in zip(sp["maxs"], lo)]
     return lo, hi
+
+
+def spec_valid(sp):
+    """constructor contract, stated independently: consistent flags, unique names, right lengths, NaN only when
+    allowed, maxs not below mins and defaults not outside [mins, maxs] by more than EPS (1e-10; the generators keep
+    5e-11 or >= 1e-6 away from that margin)"""
+    n = len(sp["names"])
+    if sp["ch"] and not sp["cb"]:
+        return False
+    if len(set(sp["names"])) != n:
+        return False
+    for key in ("mins", "maxs", "defaults"):
+        if sp[key] is not None:
+            if len(sp[key]) != n:
+                return False
+            if any(x != x for x in sp[key]) and not sp["an"]:
+                return False
+    lo = [-INF] * n if sp["mins"] is None else sp["mins"]
+    if sp["maxs"] is not None and any(m < a - 1e-10 for m, a in zip(sp["maxs"], lo)):
+        return False
+    hi = [INF] * n if sp["maxs"] is None else [max(a, b) if a == a and b == b else NAN for a, b in zip(sp["maxs"], lo)]
+    if sp["defaults"] is not None and any(d < a - 1e-10 or d > b + 1e-10 for d, a, b in zip(sp["defaults"], lo, hi)):
+        return False
+    return True
 
 
 def gen_spec(rng):
@@ -690,37 +736,45 @@ def run_transform_case(np, transform, clsname, kwargs, ops, rng_inputs):
     specs = [spec_of_vector(v) for v in vecs]
     req = ["T", TKINDS.get(clsname, "plain"), spec_token(specs[0]), spec_token(specs[1]),
            spec_token(specs[2]) if len(specs) > 2 else "-"]
-    obs = [observe(np, vecs, "ok")]
+    ws = WorldSnap(np, vecs)
+    obs = [ws.observe("ok")]
     findings = []
     changed = False
+    who = ("params", "constants", "BC.params")
     for step, op in enumerate(ops):
         req.append(top_token(op))
-        before = [vec_view(v) for v in vecs]
-        inv_before = [invariant(v) for v in vecs]
+        wb = ws
+        before = wb.views
         xin = rng_inputs[step % len(rng_inputs)]
         if clsname == "Softmax":
             xin = np.array([[0.1, 0.2, 0.3], [0.05, 0.5, 0.2]])
         out = apply_top(np, t, clsname, op, xin)
         now = trans_vectors(t)
-        if any(a is not b for a, b in zip(now, vecs)):
+        if len(now) != len(vecs) or any(a is not b for a, b in zip(now, vecs)):
             findings.append((f"transform/{clsname}/{op[0]}/vector_replaced", "params/constants object was replaced", step))
-        after = [vec_view(v) for v in vecs]
-        obs.append(observe(np, vecs, out))
+            vecs = now
+        ws = WorldSnap(np, vecs)
+        after = ws.views
+        obs.append(ws.observe(out))
         if after != before:
             changed = True
-        for j, v in enumerate(vecs):
-            inv = invariant(v)
-            if inv is not None and inv_before[j] is None:
-                findings.append((f"transform/{clsname}/{op[0]}/invariant/{inv}", f"vector {j} violates the invariant", step))
+        for j, sn in enumerate(ws.snaps):
+            if j >= len(before):
+                continue
+            if sn.inv is not None and wb.snaps[j].inv is None:
+                findings.append((f"transform/{clsname}/{op[0]}/invariant/{sn.inv}", f"{who[j]} violates the invariant", step))
             if VectorRun.frozen(after[j]) != VectorRun.frozen(before[j]):
                 findings.append((f"transform/{clsname}/{op[0]}/bounds_changed",
-                                 f"names/bounds/defaults/flags of {('params', 'constants', 'BC.params')[j]} changed", step))
+                                 f"names/bounds/defaults/flags of {who[j]} changed", step))
         if op[0] in READONLY:
             for j in (0, 1):
                 if after[j] != before[j] and VectorRun.frozen(after[j]) == VectorRun.frozen(before[j]):
                     findings.append((f"transform/{clsname}/{op[0]}/values_changed",
-                                     f"a read-only call changed the values / hit flag of {('params', 'constants')[j]}", step))
-        elif out == "rej" and after != before:
+                                     f"a read-only call changed the values / hit flag of {who[j]}", step))
+            if ws.alias[:8] != wb.alias[:8]:
+                findings.append((f"transform/{clsname}/{op[0]}/arrays_rebound",
+                                 "a read-only call changed which arrays params / constants hold or share", step))
+        elif out == "rej" and (after != before or ws.alias != wb.alias):
             findings.append((f"transform/{clsname}/{op[0]}/rejected_changes_state", "a rejected assignment changed the state", step))
     return " ".join(req), obs, findings, changed
 
@@ -761,7 +815,12 @@ def body(ctx):
         ctx.disagree("EPS constant differs", {"model": eps_model, "code": C.f2h(containers.EPS)})
 
     def vector_case(spec, ops, gen):
-        r = run_vector_case(np, Vector, spec, ops)
+        try:
+            r = run_vector_case(np, Vector, spec, ops)
+        except Exception as e:   # the class under test failed in a way the runner does not expect
+            ctx.finding("vector/unexpected_exception", f"{type(e).__name__}: {e}",
+                        {"spec": spec_json(spec), "ops": [op_json(o) for o in ops]})
+            return
         req = " ".join(["V", spec_token(spec)] + r.used_ops)
         case = {"gen": gen, "spec": spec_json(spec), "ops": [op_json(o) for o in ops]}
         reqs.append(req)
@@ -819,10 +878,15 @@ def body(ctx):
             continue
         for it in range(ninter):
             kwargs = rng.choice(TCTOR[clsname])
-            t0 = getattr(transform, clsname)(**kwargs)
-            pspec, cspec = spec_of_vector(t0.params), spec_of_vector(t0.constants)
-            ops = [gen_top(rng, pspec, cspec) for _ in range(rng.choice([4, 12, 25]))]
-            req, obs, findings, changed = run_transform_case(np, transform, clsname, kwargs, ops, inputs)
+            try:
+                t0 = getattr(transform, clsname)(**kwargs)
+                pspec, cspec = spec_of_vector(t0.params), spec_of_vector(t0.constants)
+                ops = [gen_top(rng, pspec, cspec) for _ in range(rng.choice([4, 12, 25]))]
+                req, obs, findings, changed = run_transform_case(np, transform, clsname, kwargs, ops, inputs)
+            except Exception as e:
+                ctx.finding(f"transform/{clsname}/unexpected_exception", f"{type(e).__name__}: {e}",
+                            {"class": clsname, "kwargs": kwargs})
+                continue
             reqs.append(req)
             impls.append(obs)
             case = {"gen": "transform", "class": clsname, "kwargs": kwargs, "ops": [op_json(o) for o in ops]}
